@@ -67,7 +67,16 @@ def replay_obligation(src, reg, contract, ob, result):
     if ob.kind == "side":
         info["note"] = "side obligation (loop invariant / call-site precondition): no direct concrete replay"
         return info
-    return generic_replay(contract, ob.name, ob.kind, model_py, info)
+    # the real function may write files named by the counter-model (config init, rewrite): run it in a scratch directory
+    import os, shutil, tempfile
+
+    cwd, scratch = os.getcwd(), tempfile.mkdtemp(prefix="pyvc_replay_")
+    try:
+        os.chdir(scratch)
+        return generic_replay(contract, ob.name, ob.kind, model_py, info)
+    finally:
+        os.chdir(cwd)
+        shutil.rmtree(scratch, ignore_errors=True)
 
 
 def generic_replay(contract, obname, obkind, model_py, info):
